@@ -539,6 +539,79 @@ prog("compose_repeated_vector", """
 fn main() { let v = u; o[0] = vec4<f32>(v, v); }
 """, mode="finite")
 
+prog("pointers_switch_bools_mixed", """struct In { a: vec3<f32>, t: f32 }
+struct Mid { i: In, j: In, k: vec3<u32> }
+struct S { m: Mid, tail: vec3<f32> }
+@group(0) @binding(0) var<storage, read_write> s: S;
+@group(0) @binding(1) var<storage, read_write> o: array<i32>;
+@group(0) @binding(2) var<uniform> u: vec4<i32>;
+var<private> garr: array<vec2<i32>, 3>;
+fn setc(p: ptr<function, vec3<f32>>, v: f32) { (*p).y = v; (*p)[2] = v * 2.0; }
+fn bumpm(p: ptr<function, In>) { (*p).t = (*p).t + 1.0; (*p).a.x = 5.0; }
+fn gsum(i: u32) -> i32 { return garr[i % 3u].x + garr[(i + 1u) % 3u].y; }
+@compute @workgroup_size(1)
+fn main() {
+  var loc: In = s.m.j;
+  setc(&loc.a, 3.0);
+  bumpm(&loc);
+  s.m.i = loc;
+  let p = &s.m.k;
+  (*p).y = 9u;
+  let q = &s.m.j.a;
+  (*q).z = (*q).x;
+  garr[1] = vec2<i32>(u.x, u.y);
+  garr[2].y = u.z;
+  o[0] = gsum(u32(u.w));
+  switch (u.x) {
+    case -2147483648: { o[1] = 1; }
+    case -1: { o[1] = 2; }
+    case 2147483647: { o[1] = 3; }
+    default: { o[1] = 4; }
+  }
+  var b: bool = u.y > 0;
+  var bv: vec3<bool> = vec3<bool>(b, !b, u.z == 0);
+  bv.y = b && bv.z;
+  o[2] = i32(bv.x) + 2 * i32(bv.y) + 4 * i32(bv[2]);
+  var i: i32 = 0;
+  loop {
+    var t: i32 = i * 2;
+    if (t > 6) { break; }
+    switch (t) { case 2: { i += 2; continue; } default: {} }
+    o[3] += t;
+    continuing { i += 1; break if i > 5; }
+  }
+  o[4] = i; o[5] = -2147483647 - 1; o[6] = i32(arrayLength(&o)) ;
+}
+""", mode="finite", rt=8)
+
+prog("packed_vec3_expressions", """struct P { a: vec3<f32>, s: f32, b: vec3<f32>, t: f32, c: vec3<i32>, d: i32, m: mat3x3<f32> }
+@group(0) @binding(0) var<storage, read_write> p: P;
+@group(0) @binding(1) var<storage, read_write> o: array<vec4<f32>, 12>;
+fn len2(v: vec3<f32>) -> f32 { return dot(v, v); }
+fn twice(v: ptr<function, vec3<f32>>) { *v = *v * 2.0; }
+@compute @workgroup_size(1)
+fn main() {
+  o[0] = vec4<f32>(p.m * p.a, 0.0);
+  o[1] = vec4<f32>(p.a * p.m, 1.0);
+  o[2] = vec4<f32>(p.a + p.b, len2(p.a));
+  o[3] = vec4<f32>(p.a.zyx, p.b.y);
+  o[4] = vec4<f32>(select(p.a, p.b, p.a < p.b), f32(all(p.a == p.b)));
+  var t = p.b; twice(&t); p.a = t;
+  p.b = -p.a;
+  p.b.x = p.a[1];
+  o[5] = vec4<f32>(vec3<f32>(p.c) * 0.5, f32(p.d));
+  p.c = p.c + vec3<i32>(p.d);
+  p.c.z = p.c.x * 2;
+  o[6] = vec4<f32>(min(p.a, p.b), max(p.a.x, p.s));
+  o[7] = vec4<f32>(p.m[1] * p.t, p.m[2].y);
+  let mm = p.m * p.m;
+  o[8] = vec4<f32>(mm[0], mm[2][2]);
+  p.m[0] = p.a;
+  o[9] = vec4<f32>(abs(p.a) + floor(p.b), fma(p.s, p.t, p.a.x));
+  o[10] = vec4<f32>(clamp(p.a, p.b, p.b + vec3<f32>(1.0)), 2.0);
+}
+""", mode="finite")
+
 prog("runtime_array_pointer_param", """
 @group(0) @binding(0) var<storage, read_write> data: array<u32>;
 @group(0) @binding(1) var<storage, read_write> o: array<u32, 4>;
